@@ -12,6 +12,9 @@ def R(name, fn, entry, **kw):
 
 GROUPS = [
     R('rep_count', 'get_count', 'h_rep_count', bound='loop-free; every kind, every count'),
+    R('rep_count_explicit', 'get_count', 'h_rep_count', defines={'VF_FIXED_TYPE': 3, 'VF_SMALL_OFFSETS': 1}, unwind=4, kind='bounded',
+      disjoint_unions=['Repetition'], apply_loop_contracts=False, loop_contracts_for=[],
+      bound='Explicit kind with 0..2 listed offsets of arbitrary value (zero vectors and duplicates included); the function is loop-free, the unwinding bound only matters for changed code'),
     R('rep_extrema_lattice', 'get_extrema', 'h_rep_extrema', unwind=3, apply_loop_contracts=False, loop_contracts_for=[],
       defines={'VF_LATTICE_ONLY': 1}, timeout=900,
       bound='Rectangular and Regular kinds: loop-free, all column/row counts including 0 and 1'),
@@ -23,6 +26,12 @@ GROUPS = [
       apply_loop_contracts=False, loop_contracts_for=[], uf_fp=False,
       bound='%s kind: coordinate lists of 0..3 entries (loop unwound, unwinding assertions on), arbitrary doubles' % nm)
     for sfx, t, nm in [('x', 4, 'ExplicitX'), ('y', 5, 'ExplicitY')]
+] + [
+] + [
+    R('rep_offsets_' + sfx, 'get_offsets', 'h_rep_offsets', defines={'VF_FIXED_TYPE': t}, unwind=5, kind='bounded', timeout=900,
+      apply_loop_contracts=False, loop_contracts_for=[],
+      bound='%s kind: lattices of 0..3 columns x 0..3 rows (loops unwound, unwinding assertions on), arbitrary doubles, arbitrary lattice index' % nm)
+    for sfx, t, nm in [('rect', 1, 'Rectangular'), ('regular', 2, 'Regular')]
 ] + [
     # rep_offsets_rect / rep_offsets_regular (get_offsets, lattices <= 3 x 3; contract in contracts/repetition.ct):
     # out of memory (writes through a double* view of the Vec2 array at loop-dependent offsets); not claimed.
